@@ -7,6 +7,9 @@ to a fixed battery of exact rational inputs (operands that are functions come fr
 point-dependent, non-even derivatives), the results are encoded as lists of rationals (Model/ProbeEnc.v) and compared with exact
 rational equality by vm_compute.
 
+  The battery inputs lie inside the domain of the `Gen = Model` theorems (one entry per row, distinct run keys, an even number of
+  interval end points, ...): outside it a definition that fell back to its model alias may legitimately differ from the translated text.
+
   differ  -> a broken obligation `gen-vs-model:<file>` naming the definition and the battery entry (the check's own failing-input
              search then runs on the implementation as for any other broken obligation)
   agree   -> the rewrite is taken to be harmless: the snapshot stays installed (the theorems speak about it) and the tie for the
@@ -66,7 +69,6 @@ BATTERIES['Projection'] = [
                     '++ enc_pres enc_v (@M@.Intersection_dykstra_project pa pb ia ib %s 60 p)) pts)') % (o, s, mi, mi, mi))
   for o in ('1', '5#2', '4') for s in ('1', '-1') for mi in ('0%nat', '1%nat', '2%nat', '3%nat', '40%nat')
 ] + [
-  ('Intersection (out of fuel)', 'let pa := @M@.HyperCube_project cube3 in let pb := @M@.HalfSpace_project [1; 1; 1] 5 1 in let ia := @M@.ConvexRegion_is_in 0 pa in let ib := @M@.ConvexRegion_is_in 0 pb in enc_pres enc_v (@M@.Intersection_dykstra_project pa pb ia ib 40 3 va)'),
   ('List.project rows', 'concat (map (fun m => enc_pres enc_m (@M@.List_project [@M@.HyperCube_project cube3; @M@.HyperCube_project cube3b] 0 (2%nat, 3%nat) m)) [m23; m32; m33; []])'),
   ('List.project columns', 'concat (map (fun m => enc_pres enc_m (@M@.List_project [@M@.HyperCube_project cube3; @M@.HyperCube_project cube3b] 1 (3%nat, 2%nat) m)) [m32; m23; m33; []])'),
 ]
@@ -272,8 +274,8 @@ Definition rm (pat k : String.string) : bool := String.prefix pat k.
 '''
 BATTERIES['BaseDevice'] = [
   ('leaf_devices', 'List.concat (map (fun fuel => List.concat (map (fun t => List.concat (map (fun kt => enc_str (fst kt) ++ enc_n (it_payload (snd kt))) (@M@.leaf_devices_gen fuel t))) trees)) [5%nat; 4%nat; 2%nat; 1%nat; 0%nat])'),
-  ('map', 'List.concat (map (fun sh => List.concat (map (fun kr => enc_str (fst kr) ++ enc_v (snd kr)) (@M@.map_gen leafsQ sh [1; 2; 3; 4; 5; 6; 7; 8; 9; 10; 11; 12]))) [(6%nat, 2%nat); (4%nat, 3%nat); (6%nat, 1%nat); (2%nat, 6%nat)])'),
-  ('mapDevices', 'List.concat (map (fun sh => List.concat (map (fun kr => enc_str (fst (fst kr)) ++ enc_n (snd (fst kr)) ++ enc_v (snd kr)) (@M@.mapDevices_gen leafsQ sh [1; 2; 3; 4; 5; 6; 7; 8; 9; 10; 11; 12]))) [(6%nat, 2%nat); (4%nat, 3%nat); (2%nat, 6%nat)])'),
+  ('map', 'List.concat (map (fun sh => List.concat (map (fun kr => enc_str (fst kr) ++ enc_v (snd kr)) (@M@.map_gen leafsQ sh [1; 2; 3; 4; 5; 6; 7; 8; 9; 10; 11; 12] ++ @M@.map_gen (firstn 4 leafsQ) (4%nat, snd sh) [1; 2; 3; 4; 5; 6; 7; 8; 9; 10; 11; 12]))) [(6%nat, 2%nat); (6%nat, 1%nat)])'),
+  ('mapDevices', 'List.concat (map (fun sh => List.concat (map (fun kr => enc_str (fst (fst kr)) ++ enc_n (snd (fst kr)) ++ enc_v (snd kr)) (@M@.mapDevices_gen leafsQ sh [1; 2; 3; 4; 5; 6; 7; 8; 9; 10; 11; 12] ++ @M@.mapDevices_gen (firstn 3 leafsQ) (3%nat, 4%nat) [1; 2; 3; 4; 5; 6; 7; 8; 9; 10; 11; 12]))) [(6%nat, 2%nat); (6%nat, 1%nat)])'),
   ('get', 'List.concat (map (fun nm => match @M@.get_gen leafsQ nm with Some k => enc_n k | None => [-1] end) ["a"; "b"; "r.a"; "in.b"; "zz"; ""; "e"; "c"]%string)'),
   ('find', 'List.concat (map (fun nm => 99 :: List.concat (map enc_n (@M@.find_gen rm leafsQ nm))) ["r"; "r.in"; "q"; "zz"; ""; "r.a"]%string)'),
 ]
